@@ -87,15 +87,16 @@ func (s *TableState) digest() uint64 {
 // the order their commits were invoked (writers of a table are serialised, so
 // this is the commit order).
 type MTable struct {
-	Name      string
-	Pos       int
-	Kinds     []IndexKind // secondary index kinds, in schema order (primary is implicit)
-	Chain     []*TableState
-	MinVis    int // lowest chain index a new snapshot may still show
-	DelLog    []MDel
-	RegSeq    uint64 // event at which registration returned
-	liveIters int
-	Writers   int // model's count of tasks between WriteTxn return and Commit/Abort return (mutual exclusion oracle)
+	Name          string
+	Pos           int
+	Kinds         []IndexKind // secondary index kinds, in schema order (primary is implicit)
+	Chain         []*TableState
+	MinVis        int // lowest chain index a new snapshot may still show
+	DelLog        []MDel
+	RegSeq        uint64 // event at which registration returned
+	liveIters     int
+	AbortedWrites int // write transactions aborted after they had written to this table
+	Writers       int // model's count of tasks between WriteTxn return and Commit/Abort return (mutual exclusion oracle)
 }
 
 func (t *MTable) last() *TableState { return t.Chain[len(t.Chain)-1] }
